@@ -3,6 +3,7 @@
 import MysticVerif.Basic.Proto
 import MysticVerif.Model.Emitted
 import MysticVerif.Model.EmittedJoin
+import MysticVerif.Model.EmittedShape
 
 namespace MysticVerif.DrvC13
 open MysticVerif MysticVerif.Emitted
@@ -26,6 +27,23 @@ partial def parseExpr : Val → Option (Expr UInt64)
   | .list [.sym "app1", .int f, a] => do if f < 0 then none else pure (.app1 f.toNat (← parseExpr a))
   | .list [.sym "app2", .int f, a, b] => do if f < 0 then none else pure (.app2 f.toNat (← parseExpr a) (← parseExpr b))
   | _ => none
+
+/-- a nesting of lists around integers (`conds`: positions in `codes`) -/
+partial def parseNestNat : Val → Option (Nest Nat)
+  | .int j => if 0 ≤ j then some (.leaf j.toNat) else none
+  | .list l => do pure (.node (← l.mapM parseNestNat))
+  | _ => none
+
+/-- a nesting of lists around coupler names -/
+partial def parseNestCType : Val → Option (Nest CType)
+  | .sym "inner" => some (.leaf .inner)
+  | .sym "outer" => some (.leaf .outer)
+  | .list l => do pure (.node (← l.mapM parseNestCType))
+  | _ => none
+
+def parseCArg : Val → Option CArg
+  | .sym "none" => some .none
+  | v => (parseNestCType v).map CArg.ofNest
 
 def parseCmp : Val → Option Cmp
   | .sym "eq" => some .eq
@@ -122,6 +140,47 @@ def handle : Handler
       | none => return s!"ok recog={rs} free={fs} res=raises"
     | "and" => return s!"ok recog={rs} free={fs} {showRes (joinAnd env codes x [])}"
     | "or" => return s!"ok recog={rs} free={fs} {showRes (joinOr env codes x [])}"
+    | _ => return "bad-op"
+  | .sym "gcs" :: args => Id.run do       -- generate_constraint for every SHAPE of conditions / ctype (Model/EmittedShape)
+    let some tol := (kw? args "tol").bind Val.asFloat? | return "bad-op"
+    let some rel := (kw? args "rel").bind Val.asFloat? | return "bad-op"
+    let some x := (kw? args "x").bind Val.asFloats? | return "bad-op"
+    let some rels := (kw? args "rels").bind Val.asList? |>.bind (·.mapM parseRel) | return "bad-op"
+    let some codes := (kw? args "codes").bind Val.asList? |>.bind (·.mapM parseAssign) | return "bad-op"
+    let some mode := (kw? args "mode").bind Val.asSym? | return "bad-op"
+    let some conds := (kw? args "conds").bind parseNestNat | return "bad-op"
+    let some ct := (kw? args "ctype").bind parseCArg | return "bad-op"
+    if rels.length != codes.length then return "bad-op"
+    if (Nest.flat conds).any (fun k => codes.length ≤ k) then return "bad-op"
+    let env := mkEnv tol rel
+    let recog := List.zipWith (fun r (c : Assign UInt64) => recognise isPosBits oneBits r c.canon) rels codes
+    let rs := "(" ++ " ".intercalate (recog.map pB) ++ ")"
+    let free := List.zipWith (fun (r : Rel UInt64) (c : Assign UInt64) =>
+      !(r.rhs.mentions r.i) && !(c.canon.factor.mentions r.i)) rels codes
+    let fs := "(" ++ " ".intercalate (free.map pB) ++ ")"
+    let code := fun (k : Nat) => codes.getD k default
+    let showRes := fun (r : Comb.Res (List Float) × Comb.Stats) =>
+      match r.1 with
+      | .success y t links => s!"res=success y={pFs y} t={t} links={links} calls={r.2.calls} draws={r.2.draws}"
+      | .fail y => s!"res=fail y={pFs y} calls={r.2.calls} draws={r.2.draws}"
+      | .stuck => s!"res=stuck calls={r.2.calls} draws={r.2.draws}"
+    match mode with
+    | "none" =>
+      let items := gcItems conds ct                      -- (coupler, position in codes)
+      let ws := items.map fun w => (w.1, code w.2)
+      let used := pNs (items.map (·.2))
+      let ord := order ws
+      match compose? env ws x with
+      | some y => return s!"ok recog={rs} free={fs} res=value y={pFs y} order={pNs (ord.map (·.i))} used={used}"
+      | none => return s!"ok recog={rs} free={fs} res=raises used={used}"
+    | "and" | "or" =>
+      match gcMembers conds ct with
+      | none => return s!"ok recog={rs} free={fs} res=generr"
+      | some ms =>
+        let groups := "(" ++ " ".intercalate (ms.map fun g => pNs (g.map (·.2))) ++ ")"
+        let mws := ms.map fun g => g.map fun w => (w.1, code w.2)
+        if mode == "and" then return s!"ok recog={rs} free={fs} {showRes (joinAndG env mws x [])} groups={groups}"
+        else return s!"ok recog={rs} free={fs} {showRes (joinOrG env mws x [])} groups={groups}"
     | _ => return "bad-op"
   | .sym "eval" :: args => Id.run do      -- plain evaluation of one expression (translator twin test)
     let some tol := (kw? args "tol").bind Val.asFloat? | return "bad-op"
